@@ -28,6 +28,11 @@ def bases(tier, seed):
     out.append(gb)
     out.append(S("SunflowerGDD", "Loam", seed=seed + 13, seasons=3, regime="hot", harvest_date="10/30", wparams={"yr_amp": 3.0},
                  events=[{"from": "2002/06/10", "to": "2002/07/20", "Tmax": 41.0, "Tmin": 27.0}, {"from": "2003/06/10", "to": "2003/07/20", "Tmax": 40.0, "Tmin": 26.0}]))
+    # each growing-degree-day method with nights above the crop's upper temperature (the thermal calendar of a later season is recomputed by other code
+    # than the first season's)
+    for gm in (1, 2, 3):
+        out.append(S("MaizeGDD", "Loam", seed=seed + 15 + gm, seasons=3, regime="hot", harvest_date="11/25", crop_kw={"GDDmethod": gm}, wparams={"yr_amp": 2.5},
+                     events=[{"from": f"{y}/06/20", "to": f"{y}/07/25", "Tmin": 32.5, "Tmax": 44.0} for y in (2001, 2002, 2003)]))
     out.append(S("Barley", "Loam", seed=seed + 14, seasons=4, co2={"co2_data": [[1990, 355.0], [2001, 371.0], [2002, 384.0], [2003, 384.0], [2004, 384.0], [2010, 395.0]]}))
     out.append(S("Barley", "SiltLoam", seed=seed + 11, seasons=3, field={"bunds": True, "z_bund": 0.1, "bund_water": 30}, irr={"method": 2}))
     out.append(S("Wheat", "Clay", seed=seed + 12, seasons=3, gw={"water_table": "Y", "dates": ["2001/04/20"], "values": [1.4]}, field={"mulches": True, "mulch_pct": 60, "f_mulch": 0.5}))
